@@ -71,6 +71,11 @@ a nested-block `let` that shadows an outer variable, unknown functions/methods/f
 raises TranslateError -> reported as a broken extraction (the generated def degenerates and the tie theorem fails); nothing is
 skipped silently.  Comments, attributes and whitespace are not code.
 Evaluation order: operands and arguments left to right as in Rust; effects of a nested call are bound before the enclosing call.
+After audit 3 (tools/ktx_glue_guard.py): lookup in the bounded live region (`impl` blocks, or the enclosing `fn` for a nested kernel),
+item `#[cfg]` evaluated, unique; a nested `fn` is accepted only when a kernel of the spec translates THAT item; `let x = &mut …` /
+`let y = <&mut parameter>;` aliases and changed imports of a used name are refused; `const` lookups take the one live definition;
+a `while` loop fails (`none`) when its fuel runs out and is called with `fuel + 1`; a value whose integer type hangs only on
+unsuffixed literals may not be cast / shifted / serialised unless a use confirms the assumed type (rustc would infer i32).
 """
 import os
 import re
@@ -79,6 +84,7 @@ import kernel_translate as KT
 from kernel_translate import TranslateError, lex, find_fn, strip_comments
 import ktx_misc
 import ktx_glue_mac as G
+import ktx_glue_guard as GUARD
 from ktx_glue_mac import (PG, parse_sig, find_struct, Ty, TNat, TU8, TBool, TProp, TUnit, TBytes, TTuple, atomize, lean_id,
                           Module, Fn, Ext, StructSpec, Place, names_in, paren_ty, rng)
 
@@ -93,12 +99,20 @@ def REPO():
 STR = re.compile(r'(?<![A-Za-z0-9_])"((?:[^"\\]|\\.)*)"')
 
 
-def read_src(rel):
-    """source text with string literals replaced by `__str` and the postfix `?` by a method call `.__try()`"""
-    text = strip_comments(open(os.path.join(REPO(), rel)).read())
+def raw_src(rel):
+    """comment-free source text (string literals intact: item lookup and `#[cfg(key = "…")]` evaluation work on this)"""
+    return strip_comments(open(os.path.join(REPO(), rel)).read())
+
+
+def cook(text):
+    """string literals replaced by `__str` and the postfix `?` by a method call `.__try()` (what the parser of this file reads)"""
     text, _ = ktx_misc.protect_bytestrings(text)
     text = STR.sub(" __str ", text)
     return text.replace("?", ".__try()")
+
+
+def read_src(rel):
+    return cook(raw_src(rel))
 
 
 # ===================================================================================================== parser
@@ -147,10 +161,15 @@ class PK(PG):
         return super().stmt()
 
 
-def parse_body(text):
+def parse_body(text, nested_ok=()):
     if re.search(r"#\s*\[", text):
         raise TranslateError("attribute inside a function body (e.g. `#[cfg]` on a statement) is outside the translated subset")
-    return PK(lex(text)).block()
+    p = PK(lex(text))
+    p.nested_ok = tuple(nested_ok)
+    stmts = p.block()
+    if p.peek()[0] != "eof":
+        raise TranslateError(f"trailing tokens after the body: {p.peek()[1]!r}")
+    return stmts
 
 
 def unique_fn(src, fn, scope):
@@ -433,8 +452,9 @@ class IfBindF:
 
 
 class Val:
-    def __init__(self, t, ty, at=False, lit=None, lentext=None):
+    def __init__(self, t, ty, at=False, lit=None, lentext=None, weak=frozenset()):
         self.t = t; self.ty = ty; self.at = at; self.lit = lit; self.lentext = lentext
+        self.weak = weak         # ids of unsuffixed literals whose (assumed: usize) type this value's integer type hangs on, see Tr.wmeet
 
     def p(self):
         return self.t if self.at else f"({self.t})"
@@ -452,13 +472,60 @@ class Aux:
 class Tr:
     def __init__(self, spec):
         self.spec = spec; self.mod = spec.mod
-        self.src = read_src(self.mod.file)
+        self.raw = raw_src(self.mod.file)
+        self.src = cook(self.raw)
         self.aux = []
         self.ntmp = 0; self.nloop = 0; self.nwhile = 0
         self.in_loop = 0
         self.scopes = []
         self.cgen = {}
         self.wlog = []           # stack of sets: Lean-level re-bindings of variables inside the current loop body / if branch
+        # unsuffixed integer literals without a typed context are translated as usize.  rustc infers their type from the uses and falls
+        # back to i32.  Every use this translator accepts forces the same integer type on both sides (`compatible`), EXCEPT: the source of
+        # an `as` cast, `to_le/be_bytes`, `checked_*`, and the left operand of `<<` (whose overflow guard depends on the width).  So:
+        # union-find over the literals, merged when they meet, confirmed when one meets a typed operand / context; one of the listed uses
+        # of a value that is never confirmed is refused at the end of the function (audit 3, F9).
+        self.weak_parent, self.weak_firm, self.weak_uses, self.nweak = {}, set(), [], 0
+
+    # ------------------------------------------------------------------------------------------- unsuffixed literals
+    def wfind(self, i):
+        while self.weak_parent.get(i, i) != i:
+            i = self.weak_parent[i]
+        return i
+
+    def wunion(self, ids):
+        roots = [self.wfind(i) for i in ids]
+        if not roots:
+            return
+        firm = any(r in self.weak_firm for r in roots)
+        for r in roots[1:]:
+            if r != roots[0]:
+                self.weak_parent[r] = roots[0]
+        if firm:
+            self.weak_firm.add(self.wfind(roots[0]))
+
+    def wfirm(self, ids):
+        for i in ids:
+            self.weak_firm.add(self.wfind(i))
+
+    def wmeet(self, a, b):
+        """two operands rustc unifies: weak ids of the result"""
+        if a.weak and b.weak:
+            ids = a.weak | b.weak
+            self.wunion(sorted(ids))
+            return ids
+        self.wfirm(a.weak | b.weak)
+        return frozenset()
+
+    def wuse(self, v, what):
+        if v.weak:
+            self.weak_uses.append((v.weak, what))
+
+    def wcheck(self):
+        for ids, what in self.weak_uses:
+            if any(self.wfind(i) not in self.weak_firm for i in ids):
+                raise TranslateError(f"{what} of a value whose integer type comes only from unsuffixed literals: rustc infers i32 there, the "
+                                     f"translation assumes usize (write the type or a literal suffix)")
 
     # ------------------------------------------------------------------------------------------- types
     def const_int(self, e):
@@ -533,7 +600,7 @@ class Tr:
         for mod in [self.mod] + list(self.mod.uses):
             if name in mod.structs:
                 sp = mod.structs[name]
-                src = self.src if mod is self.mod else read_src(mod.file)
+                src = self.raw if mod is self.mod else raw_src(mod.file)
                 saved, self.mod = self.mod, mod
                 try:
                     fields = [(f, self.conv(t, owner=name)) for f, t in find_struct(src, name)]
@@ -602,6 +669,9 @@ class Tr:
         """value conversions between the two views of a machine word (nat <-> UInt64 word) on stores / arguments"""
         if ty is None:
             return v
+        if v.weak:
+            self.wfirm(v.weak)          # a context with a definite type
+            v = Val(v.t, v.ty, v.at, v.lit, v.lentext)
         if ty.kind == "bool" and v.ty.kind == "prop":
             return Val(f"decide ({v.t})", TBool, False)
         if ty.kind == "w64" and v.ty.kind == "nat" and v.ty.rust == "u64":
@@ -637,7 +707,7 @@ class Tr:
         ty = env[name]
         if ty.kind == "uninit":
             raise TranslateError(f"`{name}` is read before it is assigned")
-        return Val(lean_id(name), ty, True)
+        return Val(lean_id(name), ty, True, weak=getattr(ty, "weak", frozenset()))
 
     def read_place(self, pl, env, pre, upto=None):
         v = self.root_val(pl.root, env)
@@ -664,6 +734,7 @@ class Tr:
         if step[0] == "elem":
             if ty.kind == "bytes":
                 ix = self.ex(step[1], env, pre, TNat("usize"))
+                self.wfirm(ix.weak)
                 t = self.tmp()
                 if ty.n is not None and ix.lit is not None and ix.lit >= ty.n:
                     raise TranslateError("constant index beyond the array length")
@@ -671,6 +742,7 @@ class Tr:
                 return Val(t, TU8, True)
             if ty.kind == "ext" and getattr(ty, "elem", None) is not None:
                 ix = self.ex(step[1], env, pre, TNat("usize"))
+                self.wfirm(ix.weak)
                 if ix.ty.kind != "nat" or ix.ty.rust != "usize":
                     raise TranslateError("index is not a usize")
                 if ix.lit is not None and ty.n is not None:
@@ -709,6 +781,8 @@ class Tr:
         for b_ in (lo, hi):
             if b_ is not None and (b_.ty.kind != "nat" or b_.ty.rust != "usize"):
                 raise TranslateError("slice bound is not a usize")
+            if b_ is not None:
+                self.wfirm(b_.weak)
         length = self.length_of(v)
         lo_l = lo.lit if lo is not None else 0
         hi_l = hi.lit if hi is not None else ty.n
@@ -799,12 +873,17 @@ class Tr:
             ty = want
             if e[2]:
                 ty = TNat(e[2]) if not (e[2] == "u8" and want is not None and want.kind == "u8") else TU8
+            weak = frozenset()
             if ty is None or ty.kind not in ("nat", "u8", "w64"):
                 ty = TNat("usize")
-            return self.lit_val(e[1], ty)
+                self.nweak += 1
+                weak = frozenset([self.nweak])
+            v = self.lit_val(e[1], ty)
+            v.weak = weak
+            return v
         if k == "paren":
             v = self.ex(e[1], env, pre, want)
-            return Val(v.t, v.ty, v.at, v.lit, v.lentext)
+            return Val(v.t, v.ty, v.at, v.lit, v.lentext, v.weak)
         if k == "deref":
             return self.ex(e[1], env, pre, want)
         if k == "path":
@@ -831,6 +910,7 @@ class Tr:
             return self.cast(e, env, pre)
         if k == "repeat":
             n = self.ex(e[2], env, pre, TNat("usize"))
+            self.wfirm(n.weak)
             z = self.lit_of(e[1])
             suffix = e[1][2] if e[1][0] == "lit" else None
             if z == 0 and (suffix == "u8" or (suffix is None and want is not None and want.kind == "bytes")):
@@ -907,13 +987,16 @@ class Tr:
         """`const NAME: T = <constant expression>;` read from the CURRENT source"""
         if not re.fullmatch(r"[A-Z][A-Z0-9_]*", name) or depth > 8:
             return None
-        m = re.search(r"\bconst\s+" + name + r"\s*:\s*(\w+)\s*=\s*([^;]+);", self.src)
-        if not m or m.group(1) not in BITS:
+        c = GUARD.find_const(self.raw, name)            # the ONE live definition (item #[cfg] evaluated), else refused
+        if c is None or c[0] not in BITS:
             return None
-        n = self.const_eval(PK(lex(m.group(2))).expr(), depth)
+        pc = PK(lex(c[1])); ce = pc.expr()
+        if pc.peek()[0] != "eof":
+            return None
+        n = self.const_eval(ce, depth)
         if n is None:
             return None
-        return self.lit_val(n, TNat(m.group(1)))
+        return self.lit_val(n, TNat(c[0]))
 
     def const_eval(self, e, depth=0):
         k = e[0]
@@ -1031,10 +1114,14 @@ class Tr:
         if self.is_plain_lit(e[2]) and not self.is_plain_lit(e[3]) and e[1] not in ("<<", ">>"):
             b = self.ex(e[3], env, pre, want)
             a = self.ex(e[2], env, pre, b.ty)
+            if a.ty.kind == "nat" and b.ty.kind == "nat" and b.weak and not a.weak:
+                a.weak = b.weak             # the literal took its type from a value that is itself unconfirmed
             return a, b
         a = self.ex(e[2], env, pre, want)
         start = len(pre)
         b = self.ex(e[3], env, pre, a.ty if e[1] not in ("<<", ">>") else None)
+        if e[1] not in ("<<", ">>") and a.ty.kind == "nat" and b.ty.kind == "nat" and a.weak and not b.weak and self.is_plain_lit(e[3]):
+            b.weak = a.weak
         self.order_check([a.t], pre, start)
         return a, b
 
@@ -1046,6 +1133,7 @@ class Tr:
         op = e[1]
         if op in self.CMP:
             a, b = self.two(e, env, pre, None)
+            self.wmeet(a, b)
             if a.ty.kind == "w64" and b.ty.kind == "nat":
                 a = self.coerce(a, b.ty, "comparison")
             if b.ty.kind == "w64" and a.ty.kind == "nat":
@@ -1075,6 +1163,21 @@ class Tr:
                 raise TranslateError("logical operator on non-booleans")
             return Val(f"{self.as_prop(a)} {'∧' if op == '&&' else '∨'} {self.as_prop(b)}", TProp, False)
         a, b = self.two(e, env, pre, want if op not in ("<<", ">>") else want)
+        if op in ("<<", ">>"):
+            wk = a.weak
+            self.wfirm(b.weak)              # (a shift count has its own type; whatever it is, the value is the same)
+            if op == "<<":
+                self.wuse(a, "the left operand of `<<` (the overflow guard depends on the width)")
+        else:
+            wk = self.wmeet(a, b) if (a.ty.kind == "nat" and b.ty.kind == "nat") else frozenset()
+            if not wk:
+                self.wfirm(a.weak | b.weak)
+        r = self.binop2(op, a, b, pre)
+        if wk:
+            r = Val(r.t, r.ty, r.at, r.lit, r.lentext, wk)
+        return r
+
+    def binop2(self, op, a, b, pre):
         if a.ty.kind == "u8":
             if op in ("^", "&", "|") and b.ty.kind == "u8":
                 sym = {'^': '^^^', '&': '&&&', '|': '|||'}[op]
@@ -1181,6 +1284,7 @@ class Tr:
                 n = (2 ** BITS[src_t] - 1) % 2 ** BITS[to]
                 return self.lit_val(n, TNat(to))
         v = self.ex(inner, env, pre, TNat(to) if self.is_plain_lit(inner) else None)
+        self.wuse(v, "an `as` cast")
         ty = TNat(to)
         if v.ty.kind == "enum":
             tmpl = None
@@ -1233,7 +1337,7 @@ class Tr:
         if path == "min" or path.endswith("::min"):
             a = self.ex(args[0], env, pre); b = self.ex(args[1], env, pre, a.ty)
             self.compatible(a.ty, b.ty, "min")
-            return Val(f"min {a.p()} {b.p()}", a.ty, False)
+            return Val(f"min {a.p()} {b.p()}", a.ty, False, weak=self.wmeet(a, b))
         m = re.fullmatch(r"(?:\w+::)*size_of::<(\w+)>", path)
         if m and not args:
             if m.group(1) not in SIZE_OF:
@@ -1287,6 +1391,8 @@ class Tr:
     def int_bytes(self, v, which, rust=None):
         if v.ty.kind != "nat" or (rust is not None and v.ty.rust != rust):
             raise TranslateError(f"{which} of a non-integer / of another type")
+        if rust is None:
+            self.wuse(v, f"`{which}`")
         k = BITS[v.ty.rust] // 8
         return Val(f"{'natToLE' if which == 'to_le_bytes' else 'natToBE'} {k} {v.p()}", TBytes(k), False)
 
@@ -1321,6 +1427,8 @@ class Tr:
             if name in ("checked_add", "checked_mul", "checked_sub") and len(args) == 1:
                 b = self.ex(args[0], env, pre, rv.ty)
                 self.compatible(rv.ty, b.ty, name)
+                self.wmeet(rv, b)
+                self.wuse(rv, f"`{name}`")
                 tmpl = None
                 for mod in [self.mod] + list(self.mod.uses):
                     if isinstance(mod, KModule) and (rv.ty.rust, name) in mod.checked:
@@ -1709,6 +1817,8 @@ class Tr:
                     walk(s[3])
                 elif s[0] == "while":
                     walk_e(s[1]); walk(s[2])
+                else:
+                    raise TranslateError(f"unsupported statement {s[0]} in a loop / branch body")
         walk(stmts)
         return [n for n in env if n in acc]
 
@@ -1814,6 +1924,9 @@ class Tr:
         vty = v.ty
         if vty.kind == "bytes" and v.lentext is not None and vty.n is None:
             pass
+        if v.weak and vty.kind == "nat":
+            import copy as _copy
+            vty = _copy.copy(vty); vty.weak = v.weak
         env2[name] = vty
         return self.wrap(pre, self.bind_name(name, v, pre, rest(env2)))
 
@@ -1866,11 +1979,19 @@ class Tr:
             return self.wrap(pre, self.bind_name(pl.root, v, pre, rest(env2)))
         tyl = self.place_type(pl, env)
         # Rust evaluates the right-hand side first, then the place (index check)
-        v = self.coerce(self.ex(rhs, env, pre, tyl), tyl, "assignment")
+        v = self.ex(rhs, env, pre, tyl)
+        dest_weak = getattr(tyl, "weak", frozenset()) if not pl.path else frozenset()
+        if dest_weak and v.weak:
+            self.wunion(sorted(dest_weak | v.weak))
+            v = Val(v.t, v.ty, v.at, v.lit, v.lentext)
+        elif dest_weak:
+            self.wfirm(dest_weak)
+        v = self.coerce(v, tyl, "assignment")
         info = None
         if pl.path and pl.path[-1][0] == "elem":
             parent = self.read_place(pl, env, [], upto=len(pl.path) - 1)
             ix = self.ex(pl.path[-1][1], env, pre, TNat("usize"))
+            self.wfirm(ix.weak)
             if ix.ty.kind != "nat" or ix.ty.rust != "usize":
                 raise TranslateError("index is not a usize")
             if parent.ty.kind == "bytes":
@@ -1985,9 +2106,10 @@ class Tr:
         a = Aux(f"{self.base}_loop{self.nloop}_src")
         return a
 
-    def emit_loop(self, aux, captured, env, head_ty, carried, ctys, zero_pat, step_pat, bnode, doc):
-        """render `def aux captured… : head_ty → carried… → M (carried…)` with the two equations"""
-        aux.fallible = fallible(bnode)
+    def emit_loop(self, aux, captured, env, head_ty, carried, ctys, zero_pat, step_pat, bnode, doc, fuel=False):
+        """render `def aux captured… : head_ty → carried… → M (carried…)` with the two equations.  fuel=True (`while` loops): the first
+        equation is fuel EXHAUSTION and is the failure `none`, never a value (audit 3, F11)"""
+        aux.fallible = fallible(bnode) or fuel
         R = Render(not aux.fallible)
         rty = tup_ty(ctys)
         m = f"Option {paren_ty(rty)}" if aux.fallible else rty
@@ -1995,9 +2117,11 @@ class Tr:
         cp = ", ".join(carried)
         ptext = self.params_text(captured, env)
         ptext = (ptext + " ") if ptext else ""
+        zero = f"  | {zero_pat}, {cp} => {R.ok(tup(carried))}\n"
+        if fuel:
+            zero = f"  | {zero_pat}, " + ", ".join("_" for _ in carried) + " => none\n"
         aux.text = (f"/-- {doc} -/\n"
-                    f"def {aux.name} {self.generic_binders()}{ptext}: {sig}\n"
-                    f"  | {zero_pat}, {cp} => {R.ok(tup(carried))}\n"
+                    f"def {aux.name} {self.generic_binders()}{ptext}: {sig}\n" + zero +
                     f"  | {step_pat}, {cp} =>\n" + R.go(bnode, 4))
         self.aux.append(aux)
 
@@ -2046,6 +2170,11 @@ class Tr:
             hi = self.ex(hi_e, env, pre, lo.ty)
         if lo.ty.kind != "nat" or hi.ty.kind != "nat" or lo.ty.rust != hi.ty.rust:
             raise TranslateError("range bounds")
+        if self.is_plain_lit(lo_e) and not self.is_plain_lit(hi_e) and hi.weak:
+            lo.weak = hi.weak
+        elif self.is_plain_lit(hi_e) and not self.is_plain_lit(lo_e) and lo.weak:
+            hi.weak = lo.weak
+        rng_weak = self.wmeet(lo, hi)
         used = var != "_" and var in names_in(body, set())
         carried, captured = self.carried_and_captured(body, [], env, exclude=(var,))
         if not carried:
@@ -2056,6 +2185,9 @@ class Tr:
         if used:
             self.check_shadow(var)
             benv[var] = lo.ty
+            if rng_weak:
+                import copy as _copy
+                benv[var] = _copy.copy(lo.ty); benv[var].weak = rng_weak
         cl = [lean_id(n) for n in carried]
         cap_args = "".join(lean_id(n) + " " for n in captured)
         if lo.lit is not None and hi.lit is not None:
@@ -2088,6 +2220,7 @@ class Tr:
         if buf.ty.kind != "bytes":
             raise TranslateError("chunks of a non-byte value")
         n = self.ex(n_args[0], env, pre, TNat("usize"))
+        self.wfirm(n.weak)
         if n.ty.kind != "nat" or n.ty.rust != "usize":
             raise TranslateError("chunk size is not a usize")
         if n.lit is None:
@@ -2210,8 +2343,9 @@ class Tr:
         bnode = self.loop_body(body, benv, rec, carried)
         node = self.wrap(cpre, If(c, bnode, Ret(tup(cl))))
         self.emit_loop(aux, captured, env, "Nat", cl, [env[n].lean for n in carried], "0", "fuel + 1", node,
-                       f"`while` loop of `fn {self.spec.fn}` on fuel")
-        f = fuel_text if re.fullmatch(r"[\w.]+", fuel_text) else f"({fuel_text})"
+                       f"`while` loop of `fn {self.spec.fn}` on fuel; running out of fuel is the failure `none`, never a value", fuel=True)
+        # the spec's fuel expression bounds the number of ITERATIONS; one more unit pays for the last (false) test of the condition
+        f = f"({fuel_text} + 1)"
         call = f"{aux.name} {self.dict_arg()}{cap_args}{f} " + " ".join(cl)
         return LoopCall(tup(cl), call, aux, rest(dict(env)))
 
@@ -2229,17 +2363,28 @@ class Tr:
             raise TranslateError("function without result")
         return Ret(outs[0] if len(outs) == 1 else "(" + ", ".join(outs) + ")")
 
+    def nested_kernels(self, hdr):
+        """names of nested `fn` items of this function that are kernels of their own: translated earlier FROM THAT ITEM (their spec's scope
+        is `fn <this function>`), so that a call resolves to the nested item as in Rust"""
+        out = []
+        for (owner, fn), info in REGISTRY.items():
+            sc = getattr(info.spec, "scope", None)
+            if owner is None and sc and sc.startswith("fn ") and info.spec.mod is self.mod and re.search(sc + r"\b", hdr):
+                out.append(fn)
+        return tuple(out)
+
     def translate(self, name=None):
         sp = self.spec
         lean_name = name or sp.lean_name
         mode = getattr(self, "lens_mode", None)
-        hdr, body = find_fn(self.src, sp.fn, sp.scope)
-        if not (sp.scope and sp.scope.startswith("fn ")):
-            unique_fn(self.src, sp.fn, sp.scope)
-        attrs = self.src[max(0, self.src.find(hdr) - 200):self.src.find(hdr)]
-        m_attr = re.search(r"((?:#\[[^\]]*\]\s*)+)(?:pub(?:\([^)]*\))?\s+)?$", attrs)
-        if m_attr and re.search(r"#\[\s*cfg", m_attr.group(1)):
-            raise TranslateError(f"fn {sp.fn} carries a `#[cfg]` attribute")
+        # bounded region (the live `impl` blocks / the enclosing `fn` the scope names), unique live match, item #[cfg] evaluated against the
+        # table of tools/ktx_glue_guard.py; then the body lint (attributes, nested items, inner shadowing, `&mut` aliases, re-bound `&mut`
+        # parameters are refused) and the imports the body depends on
+        hdr, body = GUARD.find_fn(self.raw, sp.fn, sp.scope, strip=False)
+        nested_ok = self.nested_kernels(hdr)
+        GUARD.lint_fn(hdr, body, what=f"fn {sp.fn}", nested_ok=nested_ok, weak_lit_ok=True)
+        GUARD.check_fn_uses(self.mod.file, self.raw, hdr, body, what=f"fn {sp.fn}")
+        hdr, body = cook(hdr), cook(body)
         _, generics, params, ret = parse_sig(hdr)
         env, plist, self.out_vars = {}, [], []
         for g in sp.const_generics:
@@ -2255,7 +2400,7 @@ class Tr:
                 self.out_vars.append(pn)
         self.ret_ty = self.conv(ret) if ret is not None else None
         self.base = lean_name[:-4] if lean_name.endswith("_src") else lean_name
-        stmts = parse_body(body)
+        stmts = parse_body(body, nested_ok)
         if mode is not None:
             if not (isinstance(ret, tuple) and ret[0] == "ref" and ret[1]) or not stmts or stmts[-1][0] != "ret":
                 raise TranslateError("a lens must return `&mut` and end in a place expression")
@@ -2266,6 +2411,7 @@ class Tr:
                 stmts = stmts[:-1] + [("assign", stmts[-1][1], "=", ("path", "new_"))]
                 self.ret_ty = None
         node = self.seq(stmts, 0, env, lambda env2: self.final(env2, None), lambda env2, v: self.final(env2, v))
+        self.wcheck()
         fal = fallible(node)
         out_tys = [env[n].lean for n in self.out_vars]
         if self.ret_ty is not None and self.ret_ty.kind != "unit":
